@@ -46,8 +46,11 @@ def vw(b):
 class C14(Prop):
     id = "C14"
     title = "Output reaches the client in order, exactly once, under any write pattern"
-    lean_modules = ["NV.C14.Props"]
-    theorems = []
+    lean_modules = ["NV.C14.Props", "NV.C14.PropsHist"]
+    theorems = ["NV.C14.model_satisfies_spec", "NV.C14.ring_inv", "NV.C14.ring_indices_in_bounds",
+                "NV.C14.chunk_in_bounds", "NV.C14.no_fault", "NV.C14.write_interest_when_pending",
+                "NV.C14.N_two_le", "NV.C14.only_tail_lost", "NV.C14.write_stores_prefix_image",
+                "NV.C14.sent_then_ring_is_stored"]
     consts = [("messageBufSize", "MESSAGE_BUF_SIZE")]
     const_headers = ["src/comm.h"]
     quick_n = 250
@@ -249,6 +252,8 @@ class C14(Prop):
         return E.Case(cid, body, {"origin": "generated"})
 
     def generate(self, rng, n, tier):
+        # E.Rng streams of neighbouring seeds are the same sequence shifted by one draw: jump to a far offset
+        rng = E.Rng((rng.next() ^ (rng.next() << 17)) & 0xFFFFFFFFFFFF)
         return [self.gen_case(rng, "g%d" % i) for i in range(n)]
 
     # ---- coverage ---------------------------------------------------------------
